@@ -8,6 +8,7 @@ import (
 	"flag"
 	"fmt"
 	"os"
+	"os/exec"
 	"path/filepath"
 	"regexp"
 	"sort"
@@ -27,6 +28,7 @@ type knownFinding struct {
 	Obligation string // prefix match on "<func>/<obligation>"
 	What       string
 	Raw        string
+	Witness    string // test file under <verif>/findings re-run on the real code: must still fail
 }
 
 func verifDir() string { return envOr("GOVC_VERIF", "/verif") }
@@ -80,6 +82,8 @@ func readFindings() []knownFinding {
 				kf.Property = m[2]
 			case "obligation":
 				kf.Obligation = m[2]
+			case "witness":
+				kf.Witness = m[2]
 			}
 		}
 		if i := strings.Index(l, "what="); i >= 0 {
@@ -153,7 +157,7 @@ func cmdCheck(args []string) int {
 		writeEvidence(evPath, *prop, *tier, seed, nil, nil, eng, time.Since(start).Seconds(), violations, []string{"load failed: " + err.Error()})
 		return 1
 	}
-	timeout := 6
+	timeout := 10
 	if *tier == "thorough" {
 		timeout = 30
 	}
@@ -249,6 +253,22 @@ func cmdCheck(args []string) int {
 		}
 		rep.Class = "V"
 	}
+	// a recorded finding suppresses its obligation only while its API-level witness still fails on the real code
+	witnessOK := map[string]bool{}
+	witnessOut := map[string]string{}
+	for _, rep := range reports {
+		if rep.Class != "F" || rep.Finding.Witness == "" {
+			continue
+		}
+		kf := rep.Finding
+		if _, done := witnessOK[kf.Raw]; !done {
+			witnessOK[kf.Raw], witnessOut[kf.Raw] = runWitness(*repo, kf.Witness)
+		}
+		if !witnessOK[kf.Raw] {
+			rep.Class = "V"
+			rep.Replayed = "the recorded witness " + kf.Witness + " of the known finding no longer fails on the real code, but the obligation still fails:\n" + witnessOut[kf.Raw]
+		}
+	}
 	// report
 	printedFinding := map[string]bool{}
 	for _, rep := range reports {
@@ -264,6 +284,9 @@ func cmdCheck(args []string) int {
 			}
 			ob := rep.Ob
 			body := fmt.Sprintf("obligation: %s\nfunction: %s\nkind: %s\nclause: %s\nstatus: %s\n", rep.Full, rep.Fn, ob.Kind, ob.Goal, ob.Status)
+			if rep.Replayed != "" {
+				body += rep.Replayed + "\n"
+			}
 			noInput := true
 			if ob.Result != nil {
 				body += fmt.Sprintf("solver: %s (%.2fs)\n", ob.Result.Solver, ob.Result.Seconds)
@@ -320,11 +343,46 @@ func cmdCheck(args []string) int {
 			nP++
 		}
 	}
+	if os.Getenv("GOVC_SLOW") != "" {
+		for _, rep := range reports {
+			if rep.Ob.Result != nil && rep.Ob.Result.Seconds > 2.0 {
+				fmt.Fprintf(os.Stderr, "SLOW %.1fs %s %s [%s]\n", rep.Ob.Result.Seconds, rep.Full, rep.Ob.Status, rep.Ob.Result.Solver)
+			}
+		}
+	}
 	fmt.Printf("property %s: %d functions, %d obligations, %d discharged, %d violations (%.1fs)\n", *prop, len(results), nAll, nP, violations, time.Since(start).Seconds())
 	if violations > 0 {
 		return 1
 	}
 	return 0
+}
+
+// runWitness runs a finding's witness test (first line "// place at: <path>") on the real code through
+// go test -overlay. It reports true when the test FAILS, i.e. the recorded defect is still present.
+func runWitness(repo, rel string) (bool, string) {
+	src := filepath.Join(lockDir(), "findings", rel)
+	data, err := os.ReadFile(src)
+	if err != nil {
+		return false, "witness file missing: " + err.Error()
+	}
+	first := strings.SplitN(string(data), "\n", 2)[0]
+	place := strings.TrimSpace(strings.TrimPrefix(first, "// place at:"))
+	if place == first || place == "" {
+		return false, "witness file has no '// place at:' line"
+	}
+	m := regexp.MustCompile(`func (Test\w+)\(`).FindStringSubmatch(string(data))
+	if m == nil {
+		return false, "witness file has no test function"
+	}
+	dst := filepath.Join(repo, place)
+	ov, _ := json.Marshal(map[string]map[string]string{"Replace": {dst: src}})
+	ovFile := filepath.Join(scratchDir, sanitize(rel)+".overlay.json")
+	os.WriteFile(ovFile, ov, 0644)
+	cmd := exec.Command("bash", "-c", fmt.Sprintf("ulimit -v 8000000; cd %q && go test -mod=mod -overlay %q -vet=off -count=1 -timeout 120s -run '^%s$' .", filepath.Dir(dst), ovFile, m[1]))
+	cmd.Env = append(os.Environ(), "GOFLAGS=-mod=mod", "GOPROXY=off", "GOSUMDB=off", "GOTOOLCHAIN=local")
+	out, _ := cmd.CombinedOutput()
+	o := string(out)
+	return strings.Contains(o, "--- FAIL: "+m[1]), firstLines(o, 15)
 }
 
 func obKindOf(name string) string {
